@@ -13,7 +13,7 @@ import loopx, proto, vlib
 
 
 def run(c):
-    loopx.run_suite(c, 'C03')
+    loopx.run_suite(c, 'C03', full_thorough=True)
     # option receive-only (shadow mode still captures the application's changes; nothing is stored)
     loopx.run_extra(c, 'C03', 'recvonly')
     # protocol level with the tomb sweeper configured (stale-marker rule of Merge): an LS step may only
